@@ -3,6 +3,7 @@
 //! A high performance thread-safe memory-bound Rust cache.
 //!
 #![deny(missing_docs)]
+#![cfg_attr(transparencies_stretto_verif, recursion_limit = "512")]
 #![allow(clippy::too_many_arguments, clippy::type_complexity)]
 #![cfg_attr(docsrs, feature(doc_cfg))]
 #![cfg_attr(docsrs, allow(unused_attributes))]
